@@ -171,11 +171,16 @@ def paths_rules(rep, prog):
     # exclusion of visited nodes and of the current node; frame layout
     nxt = li["next"].get(STACK)
     mu = ("mu", lid, STACK)
-    cur = ("sub", ("sub", mu, ("const", 0)), ("const", 0))
-    vis = ("sub", ("sub", mu, ("const", 0)), ("const", 1))
-    tov = ("sub", ("sub", mu, ("const", 0)), ("const", 2))
     pushed = [x for x in walk(nxt) if isinstance(x, tuple) and x[0] == "tuple" and len(x[1]) == 3 and x != init[1][0]] if nxt else []
     ok, why = False, "no pushed frame found"
+    # the top of the stack is its first element (stack = [frame] + stack) or its last one (stack.append(frame))
+    tops = [("const", 0), ("const", -1)]
+    for top in tops:
+        cur = ("sub", ("sub", mu, top), ("const", 0))
+        vis = ("sub", ("sub", mu, top), ("const", 1))
+        tov = ("sub", ("sub", mu, top), ("const", 2))
+        if any(x == ("sub", mu, top) for fct in S.facts if fct.qname == q for t_ in ([getattr(fct, "value", None)] + list(getattr(fct, "args", []) or []) + [c_ for c_, _ in fct.path]) if t_ is not None for x in walk(t_)):
+            break
     for fr in pushed:
         node, v2, tv = fr[1]
         tvs = strip_list(tv)
